@@ -20,13 +20,58 @@ def _lru_interesting(e):
     return o in ("purge", "tick")
 
 
+def _kb_interesting(e):
+    r = e["ret"].get("v")
+    if isinstance(r, str):
+        return r.startswith("Failed") or r in ("Pending", "UpdatedPending", "UpdatedAndPromoted", "OkPending")
+    return e["op"]["o"] in ("closest", "closest_pred", "nbd") and len(r) >= 2
+
+
+def _kb_required(events):
+    """Vacuity guard on the implementation traces: the behaviours must have reached these situations."""
+    seen = set()
+    prev_pend = {}
+    for e in events:
+        r = e["ret"].get("v")
+        if isinstance(r, str):
+            seen.add(r)
+        for b in e["st"]:
+            j, nodes, nc, pend = b
+            pk = prev_pend.get(j)
+            if pk is not None and any(n[0] == pk for n in nodes) and e["op"].get("k") != pk:
+                seen.add("promotion-full" if len(nodes) == 16 else "promotion")
+            prev_pend[j] = pend[0] if pend else None
+        if e["op"]["o"] == "reset":
+            prev_pend = {}
+    need = ["Pending", "promotion-full", "Failed(TooManyIncoming)", "Failed(TableFilter)", "Failed(BucketFilter)", "Failed(BucketFull)", "UpdatedPending"]
+    return [n for n in need if n not in seen]
+
+
 PARTS = {
+    "kb": dict(
+        component="kb", spec="MC_KBuckets.tla",
+        mc={"quick": [], "thorough": []},       # per property, see PROPS
+        goals_cfg=None, goals=[],
+        sim={"quick": [dict(cfg="MC_KBuckets_sim.cfg", num=40, depth=40), dict(cfg="MC_KBuckets_simip.cfg", num=30, depth=48)],
+             "thorough": [dict(cfg="MC_KBuckets_sim.cfg", num=600, depth=60), dict(cfg="MC_KBuckets_simip.cfg", num=400, depth=60)]},
+        drive={"quick": 2500, "thorough": 60000},
+        trace="Trace_KBuckets.tla", mon_cfg="Trace_KBuckets_mon.cfg", strict_cfg="Trace_KBuckets_strict.cfg",
+        formulas={"C07.Cap": "C07", "C07.Place": "C07", "C07.Unique": "C07", "C07.Groups": "C07", "C07.Incoming": "C07",
+                  "C07.Order": "C07", "C07.PendTimeout": "C07", "C07.PendEvict": "C07", "C07.PendDiscard": "C07",
+                  "C16.Bucket": "C16", "C16.Table": "C16",
+                  "C08.Closest": "C08", "C08.ClosestPred": "C08", "C08.ByDistance": "C08"},
+        interesting=_kb_interesting, required=_kb_required,
+        assumptions=["model keys are embedded into 256-bit ids by bit placement (model bucket j -> real bucket phi(j), phi varied per behaviour over all 256 buckets); XOR order is preserved by construction",
+                     "K = 16 is fixed in the code: exhaustive TLC runs use K = 2/3 (design level); the code is bound by TLC simulation walks and random driver runs at K = 16 validated against the same parametric specification",
+                     "virtual time by ageing the pending slots' eligibility instants (hook KBucketsTable::verif_age)",
+                     "values are real ENRs signed by one key; /24 subnets 10.0.<n>.0; the table is KBucketsTable<NodeId, Enr> with the crate's own IpTableFilter / IpBucketFilter"],
+    ),
     "lru": dict(
         component="lru", spec="MC_Lru.tla",
         mc={"quick": ["MC_Lru.cfg"], "thorough": ["MC_Lru.cfg", "MC_Lru_big.cfg"]},
         goals_cfg="MC_Lru.cfg", goals=["GoalStaleLookup", "GoalEvict", "GoalRefreshKeepsAlive"],
-        sim={"quick": dict(cfg="MC_Lru_sim.cfg", num=150, depth=25),
-             "thorough": dict(cfg="MC_Lru_sim.cfg", num=3000, depth=40)},
+        sim={"quick": [dict(cfg="MC_Lru_sim.cfg", num=150, depth=25)],
+             "thorough": [dict(cfg="MC_Lru_sim.cfg", num=3000, depth=40)]},
         drive={"quick": 4000, "thorough": 80000},
         trace="Trace_Lru.tla", mon_cfg="Trace_Lru_mon.cfg", strict_cfg="Trace_Lru_strict.cfg",
         formulas={"NoStale": "C15", "Bound": "C15", "EvictLru": "C15"},
@@ -37,5 +82,10 @@ PARTS = {
 }
 
 PROPS = {
-    "C15": dict(parts=["lru"], design_ref="5/C15"),
+    "C07": dict(parts=[dict(name="kb", mc={"quick": ["MC_KBuckets_b.cfg", "MC_KBuckets_4.cfg"],
+                                           "thorough": ["MC_KBuckets_b.cfg", "MC_KBuckets_4.cfg", "MC_KBuckets_5.cfg", "MC_KBuckets_mid.cfg"]})]),
+    "C08": dict(parts=[dict(name="kb", mc={"quick": ["MC_KBuckets_c08q.cfg"], "thorough": ["MC_KBuckets_c08.cfg"]})]),
+    "C15": dict(parts=[dict(name="lru")]),
+    "C16": dict(parts=[dict(name="kb", mc={"quick": ["MC_KBuckets_c16.cfg", "MC_KBuckets_c16b.cfg"],
+                                           "thorough": ["MC_KBuckets_c16.cfg", "MC_KBuckets_c16b.cfg", "MC_KBuckets_c16c.cfg"]})]),
 }
